@@ -845,6 +845,9 @@ func (e *SpecEnv) evalCall(x *ECall) SV {
 					e.fail("ghostvar(NAME)")
 				}
 				return SV{t: fc.comp(e.cur, "G|v|"+id.Name, "Int"), typ: mathInt}
+			case "visited":
+				// visited(k): the ghost visited set of the map range loop whose invariant is being evaluated (ext_crypto.go)
+				return e.visitedBuiltin(x)
 			case "ptrof":
 				// ptrof(x): the pointer held by an interface value
 				v := e.eval(x.Args[0])
@@ -1052,6 +1055,11 @@ func (e *SpecEnv) applySpecFn(sf *SpecFn, argExprs []Expr) SV {
 		for _, a := range args {
 			sorts = append(sorts, e.fc.tc.sortOfSV(a))
 			ts = append(ts, a.t)
+		}
+		if len(sf.Reads) > 0 {
+			// `reads` clause: the listed heap components (of the state the call is evaluated in) are extra arguments
+			rs, rt := e.readsArgs(sf, &n)
+			sorts, ts = append(rs, sorts...), append(rt, ts...)
 		}
 		name := "sf_" + mangle(sf.Pkg+"_"+sf.Name)
 		e.fc.eng.declareUF(e.fc, name, sorts, e.fc.tc.sortOf(ret))
